@@ -155,8 +155,8 @@ def impl(case):
     res["shape"] = list(np.asarray(out).shape)
     res["out1"] = np.asarray(run(1.0)[1], dtype=float).T.tolist()
     res["out0"] = np.asarray(run(0.0)[1], dtype=float).T.tolist()
-    res["beta"] = np.asarray(cr.beta_, dtype=float).tolist()        # rows = sensitive columns
-    res["mean"] = np.asarray(cr.sensitive_mean_, dtype=float).tolist()
+    res["beta"] = np.atleast_2d(np.asarray(cr.beta_, dtype=float)).tolist()   # rows = sensitive columns
+    res["mean"] = np.ravel(np.asarray(cr.sensitive_mean_, dtype=float)).tolist()
     tn = np.asarray(cr.transform(Xn), dtype=float)
     res["new"] = tn.T.tolist()
     # the same rows one at a time, and the midpoint of the first two rows (row-wise affine map)
@@ -355,6 +355,7 @@ def canon(case):
 
 
 def shrink(case):
+    case = {k: v for k, v in case.items() if k not in ("note", "_corpus")}
     cols, new = case["cols"], case["new"]
     n = len(cols[0])
     # drop a row
